@@ -147,7 +147,9 @@ class Adapter:
             return self.mod(args[0])
         highs = list(args[1:])
         if self.none_mask:
-            highs = [None if m else h for h, m in zip(highs, self.none_mask)]
+            enc = self.cell.get('absent_enc')       # how an absent entry is spelled: None, a 0-dim tensor, an empty tensor
+            mark = (lambda h: None) if not enc else (lambda h: h.new_zeros([])) if enc == '0-dim' else (lambda h: h.new_zeros([0]))
+            highs = [mark(h) if m else h for h, m in zip(highs, self.none_mask)]
         low = None if self.cell.get('low_absent') else args[0]      # DTCWTInverse: a missing lowpass
         return self.mod((low, highs))
 
